@@ -37,8 +37,8 @@ def attr(v):
     return v
 
 
-def raw_collection(grp, max_rows=5000):
-    """Raw view of one collection (an h5py group), in the shape CoolerData!CSRClauses expects."""
+def raw_collection(grp, max_rows=5000, scale=1):
+    """Raw view of one collection (an h5py group), in the shape CoolerData!CSRClauses expects (count and sum times `scale`)."""
     at = {k: attr(v) for k, v in grp.attrs.items()}
     px = grp["pixels"]
     cols = list(px.keys())
@@ -49,7 +49,7 @@ def raw_collection(grp, max_rows=5000):
     names = grp["chroms/name"][:]
     out = {
         "nbins": to_int(at.get("nbins", -1)), "nchroms": to_int(at.get("nchroms", -1)),
-        "nnz": to_int(at.get("nnz", -1)), "sum": to_int(at.get("sum", 0), "sum attribute"),
+        "nnz": to_int(at.get("nnz", -1)), "sum": to_int(at.get("sum", 0) * scale, "sum attribute"),
         "mode": str(at.get("storage-mode", "symmetric-upper")),
         "bintype": str(at.get("bin-type", "missing")),
         "binsize": 0 if (isinstance(bs, str)) else to_int(bs),
@@ -58,7 +58,7 @@ def raw_collection(grp, max_rows=5000):
         "chromlens": ints(grp["chroms/length"][:]), "nnames": int(len(names)),
         "bin1": ints(px["bin1_id"][:]), "bin2": ints(px["bin2_id"][:]),
         "hascount": "count" in cols,
-        "count": ints(px["count"][:], "count column") if "count" in cols else [],
+        "count": ints(np.asarray(px["count"][:]) * scale, "count column") if "count" in cols else [],
         "lens": [int(px[c].shape[0]) for c in cols],
         "bin1_offset": ints(grp["indexes/bin1_offset"][:]), "chrom_offset": ints(grp["indexes/chrom_offset"][:]),
     }
